@@ -214,7 +214,7 @@ def _load_map(eng, st, ref):
     return ref, m
 
 
-WIDE = 4096
+WIDE = 16384
 
 
 def _norm_key(k):
